@@ -333,6 +333,8 @@ def call_builtin(ev, name, args, kwargs, node):
     if name in ("list", "tuple"):
         if not args:
             return Lst() if name == "list" else Tup(())
+        if isinstance(args[0], Sym) and "dict" in args[0].tags:
+            args = [App("m:keys", (args[0],))] + list(args[1:])     # iterating a dict iterates its keys
         c = ev.concrete_items(args[0])
         if c is not None:
             return Lst(c) if name == "list" else Tup(c)
@@ -352,6 +354,8 @@ def call_builtin(ev, name, args, kwargs, node):
             return App("set", ())
         if isinstance(args[0], App) and args[0].fn == "set":
             return args[0]
+        if isinstance(args[0], Sym) and "dict" in args[0].tags:
+            args = [App("m:keys", (args[0],))] + list(args[1:])     # iterating a dict iterates its keys
         c = ev.concrete_items(args[0])
         if c is not None:
             uniq = []
@@ -666,6 +670,10 @@ def np_call(ev, name, args, kwargs, node):
     if name == "count_nonzero" and A and is_boolish(as_v(ev, A[0])):
         # the number of True entries of a boolean array is its sum
         return np_call(ev, "sum", [A[0]] + list(A[1:]), dict(kwargs), node)
+    if name in ("logical_and", "logical_or") and len(A) == 2 and not kwargs:
+        x0, x1 = as_v(ev, A[0]), as_v(ev, A[1])
+        if is_boolish(x0) and is_boolish(x1):
+            return conj([x0, x1]) if name == "logical_and" else disj([x0, x1])     # the ufunc forms of & and | on boolean arrays
     if name == "logical_not" and len(A) == 1 and not kwargs:
         x0 = as_v(ev, A[0])
         if is_boolish(x0):
@@ -738,6 +746,8 @@ def np_call(ev, name, args, kwargs, node):
         xv = as_v(ev, A[0])
         if ax is not None and is_const(as_v(ev, ax)) and const_of(as_v(ev, ax)) == 0:
             return getitem(ev, xv, App("slice", (Const(None), Const(None), Const(-1))))
+        if (ax is None or ax == Const(None)) and _one_dimensional(xv):
+            return getitem(ev, xv, App("slice", (Const(None), Const(None), Const(-1))))     # reversing every axis of a 1-d array
         return App("flip", (xv,), _kw(ev, kwargs))
     if name == "atleast_1d" and len(A) == 1:
         xv = as_v(ev, A[0])
@@ -761,6 +771,25 @@ def np_call(ev, name, args, kwargs, node):
         return App(name, [as_v(ev, a) for a in A], _kw(ev, kwargs))
     ev.note_unmodelled("numpy." + name, node)
     return App("ext:numpy." + name, [as_v(ev, a) for a in A], _kw(ev, kwargs))
+
+
+def _one_dimensional(v, depth=0):
+    """Provably 1-d: a flattened / 1-d-sorted array, slices and selections of such, and elementwise images of them."""
+    if depth > 8 or not isinstance(v, App):
+        return False
+    if v.fn == "flatten" or (v.fn == "reshape" and len(v.args) == 2 and v.args[1] == Const(-1)) or v.fn in ("arange", "linspace", "nonzero_1d"):
+        return True
+    if v.fn in ("sort", "fresh", "asarray", "abs", "nextafter_up", "nextafter_down") and v.args:
+        return _one_dimensional(v.args[0], depth + 1)
+    if v.fn.startswith("RATE_") and v.args:            # rate stubs are elementwise in the threshold
+        return _one_dimensional(v.args[0], depth + 1)
+    if v.fn == "getitem" and len(v.args) == 2 and isinstance(v.args[1], App) and v.args[1].fn == "slice":
+        return _one_dimensional(v.args[0], depth + 1)
+    if v.fn in ("ite", "where") and len(v.args) == 3:
+        return _one_dimensional(v.args[1], depth + 1) and _one_dimensional(v.args[2], depth + 1)
+    if v.fn == "concat" and v.args:
+        return all(_one_dimensional(a, depth + 1) for a in v.args)
+    return False
 
 
 def _is_full_slice(i):
